@@ -21,7 +21,7 @@ RULE = (
 )
 BOUND = {
     "quick": "fan_in, fan_out in {1,2,3,5,8,31,64,256,1000}; conv cin in {1,2,3,8} x kernel 1-9 x cout in "
-    "{1,3,64}; depth in {None,1,2,3,64} x 3 container forms; eta in {1e-4,1e-2,0.3,1}; Adam/AdamW; "
+    "{1,3,64}; depth in {None,1,2,3,64} x 3 container forms (+ on small fans: layer inside a block child, container of prototype deep copies, deep copy / copy of copy of the model); eta in {1e-4,1e-2,0.3,1}; Adam/AdamW; "
     "constraint default/None: full product",
     "thorough": "adds fan 4096 and depth {7, 16}",
 }
@@ -64,6 +64,16 @@ def cases(tier: str, seed: int) -> List[Dict[str, Any]]:
                                 "opt": opt, "constraint": "default", "seed": seed})
                     out.append({"kind": kind, "fin": fi, "fout": fo, "k": None, "depth": d, "form": form, "eta": 0.3, "lr_kind": "tensor",
                                 "opt": opt, "constraint": "default", "seed": seed, "two_layers": True})
+    # container-structure coordinates: the layer sits inside a block (nn.Sequential / plain Module) that is
+    # the container's direct child; the container is built from deep copies of a prototype and the whole
+    # model is deep-copied again before the optimizer is made (EMA / checkpoint copy)
+    for kind in ("Linear", "LinearReadout", "Conv1d"):
+        for fi, fo in itertools.product([1, 2, 3, 5, 16, 31], [1, 3, 8]):
+            for d in [x for x in depths if x is not None]:
+                for form in ("DepthSequential_block", "DepthModuleList_block", "clones", "clones_copy", "copy_of_copy"):
+                    for opt in ("Adam", "AdamW"):
+                        out.append({"kind": kind, "fin": fi, "fout": fo, "k": 3 if kind == "Conv1d" else None, "depth": d, "form": form,
+                                    "eta": 0.3, "opt": opt, "constraint": "default", "seed": seed})
     for cin, k, co in itertools.product([1, 2, 3, 8], range(1, 10), [1, 3, 64]):
         for (d, form), eta, opt, con in itertools.product(conts, ETAS, ["Adam", "AdamW"], ["default", None]):
             ndev = (eta != ETAS[0]) + (opt != "Adam") + (con != "default")
@@ -117,8 +127,26 @@ def run_case(case: Dict[str, Any]) -> Dict[str, Any]:
                 elif form == "DepthSequential_dict":
                     od = collections.OrderedDict([("layer", layer)] + [(f"f{i}", m) for i, m in enumerate(fillers)])
                     holder = uu.DepthSequential(od)
-                else:
+                elif form == "DepthModuleList":
                     holder = uu.DepthModuleList([layer] + fillers)
+                elif form in ("DepthSequential_block", "DepthModuleList_block"):
+                    class Block(torch.nn.Module):
+                        def __init__(self, inner: Any) -> None:
+                            super().__init__()
+                            self.inner = torch.nn.Sequential(inner)
+
+                    blocks = [Block(layer)] + [Block(m) for m in fillers]
+                    holder = uu.DepthSequential(*blocks) if form == "DepthSequential_block" else uu.DepthModuleList(blocks)
+                else:
+                    import copy
+
+                    proto = torch.nn.Sequential(layer)
+                    holder = uu.DepthSequential(*[copy.deepcopy(proto) for _ in range(d)])
+                    if form == "clones_copy":
+                        holder = copy.deepcopy(holder)
+                    elif form == "copy_of_copy":
+                        holder = copy.deepcopy(copy.deepcopy(holder))
+                    layer = holder[0][0]
             Opt = uu.optim.Adam if case["opt"] == "Adam" else uu.optim.AdamW
             lr_arg: Any = eta
             if case.get("lr_kind") == "tensor":
